@@ -46,99 +46,4 @@ theorem stepsG_bal {s s' : Load.State τ} {e e' : Env} {g g' : Ghost} {as : List
     exact ih ⟨hf1, hb1, Load.step_started hf hst hs⟩
   | shut n _ ih => exact ih hb
 
-/-- executions of the system with both ghosts: the workers written off because of an undecodable message, and the history of
-    the scheduler calls made by the controller -/
-inductive ReachB (idsOf : Nat → List τ) (st0 : LState τ) : LState τ → List Nat → Ghost → Prop where
-  | init : ReachB idsOf st0 st0 [] {}
-  | other {st st' : LState τ} {W : List Nat} {g : Ghost} (a : Step) (hn : ∀ k rq, a ≠ .ctl k rq) :
-      ReachB idsOf st0 st W g → step loadI idsOf st a = .ok st' → ReachB idsOf st0 st' (ghostW st a W) g
-  | ctl {st st' : LState τ} {W : List Nat} {g g' : Ghost} {as : List (Atom τ)} (k : Nat) (rq : Bool)
-      {w : Wk τ} {ev0 : Ctl.Event τ} {rest : List (Ctl.Event τ)} :
-      ReachB idsOf st0 st W g → step loadI idsOf st (.ctl k rq) = .ok st' →
-      st.wk[k]? = some w → w.posted = ev0 :: rest → Shape loadI st.ctl st'.ctl (fixRq rq ev0) as →
-      StepsG st.ctl.sched st.ctl.env g as st'.ctl.sched st'.ctl.env g' →
-      ReachB idsOf st0 st' (ghostW st (.ctl k rq) W) g'
-
-theorem ReachB.reachG {idsOf : Nat → List τ} {st0 st : LState τ} {W : List Nat} {g : Ghost} (h : ReachB idsOf st0 st W g) :
-    ReachG idsOf st0 st W := by
-  induction h with
-  | init => exact ReachG.init
-  | other a _ _ hs ih => exact ReachG.step a ih hs
-  | ctl k rq _ hs _ _ _ _ ih => exact ReachG.step (.ctl k rq) ih hs
-
-/-- every execution has its ghost history -/
-theorem ReachG.reachB {idsOf : Nat → List τ} {st0 st : LState τ} {W : List Nat} (h : ReachG idsOf st0 st W) :
-    ∃ g, ReachB idsOf st0 st W g := by
-  induction h with
-  | init => exact ⟨{}, ReachB.init⟩
-  | step a _ hs ih =>
-    obtain ⟨g, hg⟩ := ih
-    cases a with
-    | main k p => exact ⟨g, ReachB.other _ (by intro _ _ hh; cases hh) hg hs⟩
-    | deliver k => exact ⟨g, ReachB.other _ (by intro _ _ hh; cases hh) hg hs⟩
-    | recv k => exact ⟨g, ReachB.other _ (by intro _ _ hh; cases hh) hg hs⟩
-    | crash k b => exact ⟨g, ReachB.other _ (by intro _ _ hh; cases hh) hg hs⟩
-    | ctl k rq =>
-      have hs' := hs
-      simp only [Sys.step] at hs'
-      obtain ⟨w, ev0, rest, c', hw, hp, hl, rfl⟩ := ctlStep_shape hs'
-      obtain ⟨as, hst, hsh⟩ := loopOnce_steps hl
-      obtain ⟨g', hg'⟩ := steps_toG hst g
-      exact ⟨g', ReachB.ctl k rq hg hs hw hp hsh hg'⟩
-
-/-- steps of the workers, of the receiver threads and crashes leave the scheduler alone -/
-theorem other_sched {idsOf : Nat → List τ} {st st' : LState τ} (a : Step) (hn : ∀ k rq, a ≠ .ctl k rq)
-    (h : step loadI idsOf st a = .ok st') : st'.ctl.sched = st.ctl.sched := by
-  cases a with
-  | main k p =>
-    simp only [Sys.step] at h
-    split at h
-    · cases h
-    · split at h
-      · cases h
-      · simp only [Except.ok.injEq] at h; subst h; rfl
-  | deliver k =>
-    simp only [Sys.step] at h
-    split at h
-    · cases h
-    · split at h
-      · cases h
-      · simp only [Except.ok.injEq] at h; subst h; rfl
-  | recv k =>
-    simp only [Sys.step] at h
-    split at h
-    · cases h
-    rename_i s1 hr
-    simp only [Except.ok.injEq] at h; subst h
-    obtain ⟨w, m, rest, fl', w2, outs', _, _, rfl, _⟩ := recvStep_shape hr
-    rfl
-  | crash k b =>
-    simp only [Sys.step] at h
-    split at h
-    · cases h
-    rename_i s1 hc
-    simp only [Except.ok.injEq] at h; subst h
-    unfold crashStep at hc
-    split at hc
-    · cases hc
-    split at hc
-    · cases hc
-    split at hc
-    · simp only [Option.some.injEq] at hc; subst hc; rfl
-    · simp only [Option.some.injEq] at hc; subst hc; rfl
-  | ctl k rq => exact absurd rfl (hn k rq)
-
-/-- **The controller's ledger in every reachable state of the system**, whatever crashed: pool + books + completions handled +
-    crash items = the indices of the agreed collection + what the crash hook re-queued, as multisets. -/
-theorem reachB_bal (numnodes maxfail : Nat) (msc maxRestart : Option Int) (idsOf : Nat → List τ) {st : LState τ} {W : List Nat}
-    {g : Ghost} (h : ReachB idsOf (init loadI (Load.init numnodes msc) numnodes maxfail maxRestart idsOf) st W g) :
-    BalS st.ctl.sched g := by
-  induction h with
-  | init =>
-    refine ⟨by intro _; rfl, ?_, ?_⟩
-    · simp [Bal, Load.view, Load.init, View.all, AList.values, init, Ctl.init]
-    · simp [Load.StartedOK, Load.init, init, Ctl.init]
-  | other a hn _ hs ih => rw [other_sched a hn hs]; exact ih
-  | ctl k rq _ _ _ _ _ hg ih => exact stepsG_bal hg ih
-
 end Xdist.Sys
